@@ -3,8 +3,8 @@
 (* escapes the next byte (so that "\/" does not end the token and "\\" is a backslash);     *)
 (* whatever follows the closing slash is not part of the type.  Same shape as SchemaText     *)
 (* (SInit, SStep, SVerdict).  Whether the pattern is a well-formed regular expression is a   *)
-(* matter of its own (the harness sets such texts aside by the error code); the empty        *)
-(* pattern "//" is left unspecified.  `n` counts the bytes of the token so far.              *)
+(* matter of its own (the harness sets such texts aside by the error code); "//" is the     *)
+(* empty pattern (the inline rule {regex: ""} is one).  `n` counts the bytes of the token.   *)
 EXTENDS Naturals, Sequences
 Sp(c) == c \in {32, 9}
 Nl(c) == c \in {10, 13}
@@ -20,7 +20,7 @@ Inc(s) == IF s.n >= MaxToken THEN RUnspec ELSE RS(s.st, s.n + 1)
 SStep(s, c) ==
   IF s.v # "live" THEN s
   ELSE CASE s.st = "start" -> IF c = 47 THEN RS("first", 1) ELSE RDead
-         [] s.st = "first" -> IF c = 47 THEN RUnspec ELSE IF c = 92 THEN RS("esc", 2) ELSE RS("body", 2)      \* "//": empty pattern
+         [] s.st = "first" -> IF c = 47 THEN RS("done", 2) ELSE IF c = 92 THEN RS("esc", 2) ELSE RS("body", 2)      \* "//": the empty pattern
          [] s.st = "body"  -> IF s.n >= MaxToken THEN RUnspec
                               ELSE IF c = 47 THEN RS("done", s.n + 1) ELSE IF c = 92 THEN RS("esc", s.n + 1) ELSE RS("body", s.n + 1)
          [] s.st = "esc"   -> IF s.n >= MaxToken THEN RUnspec ELSE RS("body", s.n + 1)
